@@ -39,6 +39,7 @@ class Task:
         self.obj = None
         self.cout = None
         self.held = False
+        self.write_fids = []
 
 
 class DesWorld(W.World):
@@ -188,6 +189,29 @@ class DesWorld(W.World):
         pass
 
 
+_CURRENT = {"world": None}
+_orig_mesh_write = None
+
+
+def _install_write_probe():
+    """record the frame id RF24MeshNoMaster.write() is about to use (harness-side wrapper, not a source hook)"""
+    global _orig_mesh_write
+    from circuitpython_nrf24l01.rf24_mesh import RF24MeshNoMaster
+    if _orig_mesh_write is not None:
+        return
+    _orig_mesh_write = RF24MeshNoMaster.write
+
+    def write(self, to_node, message_type, message):
+        w = _CURRENT["world"]
+        if w is not None:
+            try:
+                w.cur().write_fids.append(getattr(RF24NetworkHeader, NEXT_ID))
+            except AttributeError:
+                pass
+        return _orig_mesh_write(self, to_node, message_type, message)
+    RF24MeshNoMaster.write = write
+
+
 class Run:
     """specs: list of (radio, kind, arg); scripts: per object a list of steps
          ("at", ns)                 idle until the node's clock reaches ns (no bus activity)
@@ -203,6 +227,8 @@ class Run:
         self.rnd = random.Random(seed)
         self.world = DesWorld(model, "".join("T" if p else "F" for p in plus), fates, self.rnd, spi_cost, jitter)
         W.install_time(self.world)
+        _install_write_probe()
+        _CURRENT["world"] = self.world
         self.specs, self.scripts = specs, scripts
         self.horizon = horizon_ns
         self.quiet_since, self.drain_ns = 0, 60_000_000
@@ -242,9 +268,21 @@ class Run:
     def call(self, t, op, dump=True):
         w = self.world
         t.transfers = 0
-        enc = NO.encode(op)
         t0 = t.clock
+        t.write_fids = []
+        id_before = NO.next_id()
         res = NO.apply_op(t.obj, op)
+        # frame ids: every node has its own counter, and FrameQueue.enqueue() burns one id per queued frame (it builds a
+        # fresh RF24NetworkFrame); under concurrency frames are queued while a call is in progress, so the id a mesh
+        # write() gives its header is only known when write() is entered (recorded by the wrapper below)
+        if op[0] in ("msend", "mwrite", "check_connection"):
+            fid = t.write_fids[0] if t.write_fids else id_before
+            saved = getattr(RF24NetworkHeader, NEXT_ID)
+            setattr(RF24NetworkHeader, NEXT_ID, fid)
+            enc = NO.encode(op)
+            setattr(RF24NetworkHeader, NEXT_ID, saved)
+        else:
+            enc = NO.encode(op)
         exc = R.LAST_EXC[0]
         entry = {"op": op, "res": res, "t0": t0, "t1": t.clock, "addr": t.obj._addr, "exc": repr(exc) if exc else None}
         t.ops_enc += enc
